@@ -263,10 +263,11 @@ def gen_hier_cases(ctx):
     thorough = ctx.tier == 'thorough'
     cases = []
 
-    def fixed(p, n, steps, fine_steps, trunc, disp):
+    def fixed(p, n, steps, fine_steps, trunc, disp, chain=None):
         kv = [F(0)] * p + [F(i) for i in range(n + 1)] + [F(n)] * p
         g = sorted([F(0), F(n), F(n) * F(5, 64), F(n) * F(3, 8)])
         return {'kvs': [hexs(kv)], 'p': [p], 'truncate': trunc, 'disparity': disp, 'steps': steps, 'fine_steps': fine_steps,
+                'chain_steps': chain or [[0, [[float(n - 2), float(n - 1)]]]],
                 'coeffs': [rng.randint(-8, 8) for _ in range(400)], 'grid': [hexs(g)], 'points': [hexs([g[1]]), hexs([g[2]])],
                 'rf_rows': [1, 5, 7], 'bdspecs': [], 'dim': 1, '_grid': [g], '_points': [[g[1]], [g[2]]]}
     # corner refinement nested twice (THB, three levels); finite disparity with a fine space two levels deeper;
@@ -275,6 +276,8 @@ def gen_hier_cases(ctx):
     cases.append(fixed(2, 4, [[0, [[0.0, 2.0]]]], [[1, [[0.0, 1.0]]], [2, [[0.0, 0.5]]]], False, 1))
     cases.append(fixed(1, 4, [[0, [[1.0, 2.0]]], [1, [[1.0, 2.0]]]], [[2, [[1.0, 1.5]]]], True, None))
     cases.append(fixed(3, 6, [[0, [[1.0, 5.0]]], [1, [[2.0, 4.0]]]], [[0, [[0.0, 1.0]]]], False, 2))
+    # warm caches, then a patch that only adds level-1 functions (8 cells, p = 2: first the right end, then cells 1,2)
+    cases.append(fixed(2, 8, [[0, [[5.0, 8.0]]]], [[1, [[6.0, 8.0]]]], False, None, chain=[[0, [[1.0, 3.0]]]]))
     n = 240 if thorough else 44
     for c in range(n):
         dim = [1, 1, 2, 2, 2, 3][c % 6] if thorough else [1, 1, 2, 2, 1, 2, 3, 2][c % 8]
@@ -332,6 +335,20 @@ def gen_hier_cases(ctx):
                 fine_steps.append([nsteps + s, prev])
             else:
                 fine_steps.append([rng.randint(0, nsteps + s), box(kvs)])
+        # third space of the chain hs -> fine -> fine2: mostly a small patch of level-0 cells
+        # (k <= p adjacent cells per axis: activates level-1 functions without deactivating any)
+        chain_steps = []
+        for s in range(rng.randint(1, 2)):
+            if rng.random() < 0.65:
+                bx = []
+                for d, kv in enumerate(kvs):
+                    br = sorted(set(kv))
+                    k = rng.randint((p[d] + 2) // 2, max(p[d], 1))
+                    i = rng.randrange(max(1, len(br) - k))
+                    bx.append([float(br[i]), float(br[min(i + k, len(br) - 1)])])
+                chain_steps.append([0, bx])
+            else:
+                chain_steps.append([rng.randint(0, nsteps + nf - 1), box(kvs)])
         disparity = rng.choice([None, None, 1, 2])
         truncate = rng.random() < 0.5
         grid = []
@@ -344,7 +361,7 @@ def gen_hier_cases(ctx):
         points = [[rng.choice(g) for g in grid] for _ in range(3)]
         bdspecs = [[rng.randrange(dim), rng.randint(0, 1)] for _ in range(2)] if dim >= 2 else []
         cases.append({'kvs': [hexs(kv) for kv in kvs], 'p': p, 'truncate': truncate, 'disparity': disparity,
-                      'steps': steps, 'fine_steps': fine_steps,
+                      'steps': steps, 'fine_steps': fine_steps, 'chain_steps': chain_steps,
                       'coeffs': [rng.randint(-8, 8) for _ in range(400)],
                       'grid': [hexs(g) for g in grid], 'points': [hexs(pt) for pt in points],
                       'rf_rows': [rng.randrange(10 ** 6) for _ in range(rng.randint(1, 12))],
@@ -657,6 +674,45 @@ def check_hier(c, r):
                             'prolongate_to(fine): coarse function %d (level %d) is mapped to a different function (max coefficient error %s; coarse %d levels, fine %d levels, disparity %s)' % (
                                 k, lvl, float(d), L, fine.L, dispname), {'column': k, 'error': float(d)}))
                 break
+
+    # -- chain hs -> fine -> fine2 (caches of fine are warm when it is copied and refined)
+    ch = r.get('chain')
+    if ch is not None:
+        if is_err(ch):
+            bad.append(('chain-raises-%s' % ch['error'], 'chain fine -> fine2 raised: ' + ch['msg'], {}))
+        else:
+            f2 = Sp(ch['hs'])
+
+            def check_pt(csp, t, label):
+                if t['shape'] != [f2.numdofs, csp.numdofs]:
+                    return ('prolongate_to-shape:' + label, 'prolongate_to (%s) has shape %s, expected %s' % (label, t['shape'], [f2.numdofs, csp.numdofs]), {})
+                cols = mat_cols(t)
+                src = csp.rep(csp.L - 1, False)
+                dst = f2.rep(f2.L - 1, False)
+                for k in range(len(src)):
+                    lhs = f2.prolong_to(csp.L - 1, f2.L - 1, src[k])
+                    d = maxdiff(lhs, comb(dst, cols[k]))
+                    if d > H_TOL * f2.L:
+                        return ('prolongate_to-chain:%s' % label,
+                                'prolongate_to (%s, index caches warm): coarse function %d is mapped to a different function (max coefficient error %s; %d -> %d levels, disparity %s)' % (
+                                    label, k, float(d), csp.L, f2.L, dispname), {'column': k, 'error': float(d), 'chain_marks': ch['used']})
+                return None
+            for t, csp, label in ((ch['pt12'], fine, 'fine->fine2'), (ch['pt02'], sp, 'coarse->fine2'), (ch['pt_inplace'], fine, 'refined-in-place')):
+                b = check_pt(csp, t, label)
+                if b:
+                    bad.append(b)
+            N = 1
+            for n in f2.nd[f2.L - 1]:
+                N *= n
+            exp = f2.rep(f2.L - 1, False)
+            if ch['rf']['shape'] != [N, len(exp)]:
+                bad.append(('represent_fine-shape:chain', 'represent_fine of the refined copy has shape %s, expected %s' % (ch['rf']['shape'], [N, len(exp)]), {}))
+            else:
+                cols = mat_cols(ch['rf'])
+                for k, e in enumerate(exp):
+                    if maxdiff(cols[k], {f2.ravel(f2.L - 1, K): v for K, v in e.items()}) > H_TOL:
+                        bad.append(('represent_fine:chain', 'represent_fine of the refined copy: column %d differs from the exact representation' % k, {}))
+                        break
 
     # -- thb_to_hb / hb_to_thb are mutually inverse changes of basis of the same functions
     if not is_err(r['thb_to_hb']) and not is_err(r['hb_to_thb']):
